@@ -235,6 +235,41 @@ class _noworld:
         return False
 
 
+class _quarantine:
+    """Contain a component that is already known to read the global NumPy stream
+    (``DenseCoancestryMatrix.apply_jitter`` has no ``rng`` parameter) so that the
+    rest of the run is still decided: the call runs from a fixed global state and
+    the caller's global state is restored afterwards.  Whether it consumed the
+    global stream is recorded and reported under its own signature, so any other
+    leak in the enclosing component keeps the ordinary signature."""
+
+    def __init__(self):
+        self.noted = {}
+
+    def __enter__(self):
+        from pybrops.popgen.cmat.DenseCoancestryMatrix import DenseCoancestryMatrix as K
+        self.K, self.orig = K, K.__dict__["apply_jitter"]
+        orig, noted = self.orig, self.noted
+
+        def apply_jitter(obj, *a, **kw):
+            saved = numpy.random.get_state()
+            numpy.random.seed(20240229)
+            before = numpy.random.get_state()[1].tobytes(), numpy.random.get_state()[2]
+            try:
+                return orig(obj, *a, **kw)
+            finally:
+                after = numpy.random.get_state()[1].tobytes(), numpy.random.get_state()[2]
+                if after != before:
+                    noted["DenseCoancestryMatrix.apply_jitter"] = noted.get("DenseCoancestryMatrix.apply_jitter", 0) + 1
+                numpy.random.set_state(saved)
+        K.apply_jitter = apply_jitter
+        return self
+
+    def __exit__(self, *a):
+        self.K.apply_jitter = self.orig
+        return False
+
+
 def _exec_B(sc):
     V, log, probes, faults = [], [], {}, {}
     st = sc["steps"][0]
@@ -254,12 +289,20 @@ def _exec_B(sc):
             ctx = catalog.Ctx(sc["world"])
             g = rngseam.make(sc["kind"], sc["k"])
             g0 = rngseam.global_state_digest()
+            q = _quarantine()
             try:
-                out = _odig(fn(ctx, g, st["par"]))
+                with q:
+                    out = _odig(fn(ctx, g, st["par"]))
             except Exception as e:
                 out = ["EXC", type(e).__name__, str(e)[:120]]
             g1 = rngseam.global_state_digest()
             outs.append(out)
+            for site, n in sorted(q.noted.items()):
+                probes["quarantined_global_draw"] = 1
+                if not any(v["component"] == site for v in V):
+                    V.append(viol("explicit-rng-leaves-globals", site, "draws-from-global-stream",
+                                  "%s given its own %s reached %s, which has no rng parameter and drew from the global NumPy stream (%d call(s)); "
+                                  "contained for the rest of this run" % (name, sc["kind"], site, n), step=0))
             if g.ncalls == 0:
                 probes["supplied_generator_never_used"] = 1
             if g1 != g0 and not V:
